@@ -2,6 +2,8 @@
 
 #include <yaclib/util/detail/default_deleter.hpp>
 
+#include <atomic>
+
 namespace yaclib::detail {
 
 template <typename CounterBase, typename Deleter = DefaultDeleter>
@@ -23,7 +25,7 @@ struct OneCounter : CounterBase {
     Deleter::Delete(*this);
   }
 
-  std::size_t Get() noexcept {
+  std::size_t Get(std::memory_order = std::memory_order_relaxed) noexcept {
     return 1;
   }
 };
